@@ -11,7 +11,7 @@ condition `CfgOk`, and for every source string.
 This file: the framework (`Good`), the regex facts, the non-recursive handlers, `parseLoop` and `parse`.
 Block quotes, lists, the induction on the nesting budget and the headline theorem: `C01ProgressList`.
 -/
-import Mistune.Model.Block
+import Mistune.Model.BlockDispatch
 import MistuneProofs.C01Loops
 namespace Mistune
 
@@ -347,7 +347,11 @@ def CfgOk (cfg : MdCfg) : Bool :=
   decide (cfg.rx "mistune.block_parser.BlockParser.BLANK_LINE" = blankLineRx) &&
   decide (1 ≤ (cfg.rx "mistune.block_parser._STRICT_BLOCK_QUOTE").minLen) &&
   decide (1 ≤ (cfg.rx "mistune.helpers.LINK_BRACKET_START").minLen) &&
-  decide (1 ≤ (cfg.rx "mistune.helpers.LINK_HREF_BLOCK_RE").minLen)
+  decide (1 ≤ (cfg.rx "mistune.helpers.LINK_HREF_BLOCK_RE").minLen) &&
+  -- plugin `def_list` (only where its rule is registered): `DD_START_RE` and `DEF_RE` consume
+  (!registered cfg "def_list" ||
+    (decide (1 ≤ (cfg.rx "mistune.plugins.def_list.DD_START_RE").minLen) &&
+     decide (1 ≤ (cfg.rx "mistune.plugins.def_list.DEF_RE").minLen)))
 
 structure CfgFacts (cfg : MdCfg) : Prop where
   spec : ScOk cfg.blockSpec
@@ -357,6 +361,8 @@ structure CfgFacts (cfg : MdCfg) : Prop where
   strict : 1 ≤ (cfg.rx "mistune.block_parser._STRICT_BLOCK_QUOTE").minLen
   brStart : 1 ≤ (cfg.rx "mistune.helpers.LINK_BRACKET_START").minLen
   hrefBlock : 1 ≤ (cfg.rx "mistune.helpers.LINK_HREF_BLOCK_RE").minLen
+  defList : registered cfg "def_list" = true →
+    1 ≤ (cfg.rx "mistune.plugins.def_list.DD_START_RE").minLen ∧ 1 ≤ (cfg.rx "mistune.plugins.def_list.DEF_RE").minLen
 
 theorem getListBullet_mem (c : Char) : getListBullet c ∈ listBullets := by
   unfold getListBullet listBullets
@@ -375,8 +381,12 @@ theorem listItemSc_min (cfg : MdCfg) (b : Char) (lw : Nat) : listItemSc cfg b lw
 theorem cfgFacts_of_ok {cfg : MdCfg} (h : CfgOk cfg = true) : CfgFacts cfg := by
   unfold CfgOk at h
   simp only [Bool.and_eq_true, decide_eq_true_eq] at h
-  obtain ⟨⟨⟨⟨⟨⟨h1, h2⟩, h3⟩, h4⟩, h5⟩, h6⟩, h7⟩ := h
-  refine ⟨scOk_of_B h1, ?_, h3, h4, h5, h6, h7⟩
+  obtain ⟨⟨⟨⟨⟨⟨⟨h1, h2⟩, h3⟩, h4⟩, h5⟩, h6⟩, h7⟩, h8⟩ := h
+  refine ⟨scOk_of_B h1, ?_, h3, h4, h5, h6, h7, ?_⟩
+  rotate_left
+  · intro hreg
+    simp only [hreg, Bool.not_true, Bool.false_or, Bool.and_eq_true, decide_eq_true_eq] at h8
+    exact h8
   intro c lw
   rw [listItemSc_min]
   rw [List.all_eq_true] at h2
